@@ -70,4 +70,5 @@ def run(prog: Program, col: Collector, tier: str, refs: Optional[Refs] = None, c
     _alg3.r_units_and_distributive_tables(prog, col, refs, cat, "R02.30", "R02.31")
     col.rule("R02.32", "mixed scalar/array registrations of a commutative op are mirror images (naive evaluation of op(constant, tensor) runs them)", floor=6)
     _c15._mirror(prog, col, refs, cat)
+    algebra.r_op_params_used(prog, col, refs, cat, "R02.33")
     return col
